@@ -38,9 +38,11 @@ def judge_program(P, config):
                 stats['contra_wildcards'] += 1
             if usv:
                 out.append(('use-site-variance-disabled', creator_hint(path),
-                            'wildcard %s' % ('*' if o.bound is None else o.variance.variance_to_str())))
+                            'wildcard %s created by %s' % ('*' if o.bound is None else o.variance.variance_to_str(),
+                                                           getattr(o, '_vsite', '?'))))
             elif contra and o.variance.is_contravariant():
-                out.append(('use-site-contravariance-disabled', creator_hint(path), 'wildcard in'))
+                out.append(('use-site-contravariance-disabled', creator_hint(path),
+                            'wildcard in created by %s' % getattr(o, '_vsite', '?')))
         elif isinstance(o, ast.ClassDeclaration):
             for t in o.type_parameters or []:
                 user_tparams.append(t)
@@ -81,9 +83,48 @@ def _is_user_param(t):
     return True
 
 
+_tagged = {}
+
+
+def tag_wildcard_creators():
+    """harness-only provenance: remember which /repo function created each wildcard"""
+    if _tagged:
+        return
+    import sys
+    from src.ir import types as tp
+    orig = tp.WildCardType.__init__
+
+    def init(self, bound=None, variance=tp.Invariant):
+        orig(self, bound, variance)
+        f = sys._getframe(1)
+        name = '?'
+        hops = 0
+        while f is not None and hops < 12:
+            fn = f.f_code.co_filename
+            if '/src/' in fn and '/verif/' not in fn:
+                co = f.f_code.co_name
+                if co == '_get_type_substitution':
+                    # a wildcard rebuilt by substitution inherits the provenance of the original
+                    src = f.f_locals.get('etype')
+                    inherited = getattr(src, '_vsite', None)
+                    if inherited is not None:
+                        name = inherited
+                        break
+                if co not in ('__init__', '_get_type_substitution', 'substitute_type_args', 'substitute_type',
+                              'perform_type_substitution', '__deepcopy__', '<lambda>', '<listcomp>', '<genexpr>'):
+                    name = co
+                    break
+            f = f.f_back
+            hops += 1
+        self._vsite = name
+    tp.WildCardType.__init__ = init
+    _tagged['done'] = True
+
+
 class Oracle:
     def __init__(self, params):
         pipeline.setup_env()
+        tag_wildcard_creators()
         self.stats = {}
 
     def judge(self, x):
@@ -98,7 +139,7 @@ class Oracle:
             if k in seen:
                 continue
             seen.add(k)
-            vs.append({'rule': rule, 'site': 'generator', 'shape': '%s [%s]' % (what, x.config.lang),
+            vs.append({'rule': rule, 'site': 'generator', 'shape': what, 'language': x.config.lang,
                        'where': where})
         return vs
 
@@ -107,8 +148,10 @@ def plan(tier):
     langs = pipeline.LANGS
     sw = [(a, b, c, d) for a in (0, 1) for b in (0, 1) for c in (0, 1) for d in (0, 1)]
     if tier == 'quick':
+        few = [(1, 0, 0, 0), (0, 1, 0, 0), (0, 0, 1, 0), (0, 0, 0, 1), (1, 1, 1, 1)]
         return [
-            ([Config(l, s, 'S') for l in langs for s in sw], [('prng', 1), ('prng', 2)], 1, 2),
+            ([Config(l, s, 'S') for l in langs for s in sw], [('prng', 1)], 1, 2),
+            ([Config(l, s, 'M') for l in langs for s in few], [('prng', 2)], 1, 8),
             ([Config(l, s, 'D') for l in langs for s in sw], [('prng', 1), 'first', 'alt'], 0, 1),
         ]
     pol = ['first', 'last', 'alt'] + [('prng', c) for c in range(1, 9)]
